@@ -1,6 +1,6 @@
-\* exhaustive: core S, every stationary-flag setting, tracking on and off, depth 5
+\* exhaustive: core S, stationary-flag settings {} and {G,P}, tracking on and off, depth 5
 CONSTANTS NL = 4  NA0 = 3  NP0 = 1  NF = 2  MB = 3  MaxCascade = 3  MaxLevel = 5  ReAdd = TRUE
-CONSTANTS Layout <- LayoutS  Place <- PlaceS  SFlagSets <- FlagsAll  TrackSet <- Both  Go <- GoBounded
+CONSTANTS Layout <- LayoutS  Place <- PlaceS  SFlagSets <- FlagsG2  TrackSet <- Both  Go <- GoBounded
 INIT Init
 NEXT Next
 CONSTRAINT Bound
